@@ -190,6 +190,8 @@ def with_setup(rng, run):
         pre.append("@bh.%d" % rng.choice([1, 2, 3, 2, 31, 4095, rng.randrange(4096)]))
     if rng.random() < 0.6:
         pre.append("@rw.%d" % rng.choice([2, 2, 3, 4, 8]))
+    if rng.random() < 0.35:
+        pre.append("@th.%d" % rng.choice([0, 0, 1, 2, 3]))      # one handler invocation throws; the event loop carries on
     return ",".join(pre + [run]) if pre else run
 
 
